@@ -146,8 +146,15 @@ impl WorldCfg {
 }
 
 /// Fresh canister: new stable memory + `init`.
+/// A fresh, zeroed stable memory. It is pre-sized with `vec![0; n]` (calloc: untouched pages cost
+/// nothing), because growing an empty vector bucket by bucket zero-fills 8 MiB per stable
+/// structure explicitly and made a canister reset the dominant cost of every case.
+fn fresh_memory() -> std::rc::Rc<std::cell::RefCell<Vec<u8>>> {
+    std::rc::Rc::new(std::cell::RefCell::new(vec![0u8; 192 << 20]))
+}
+
 pub fn reset(cfg: &WorldCfg) {
-    can::memory::set_memory(Default::default());
+    can::memory::set_memory(fresh_memory());
     can::runtime::mock_time::set_mock_time_secs(MOCK_NOW_SECS);
     can::runtime::verif::performance_counter_reset();
     can::runtime::verif::set_performance_counter_step(0);
@@ -178,7 +185,7 @@ pub fn reset_with_genesis(cfg: &WorldCfg, genesis: &bitcoin::Block, genesis_diff
     b.mock_difficulty = Some(genesis_difficulty);
     let net = cfg.net;
     let thr = cfg.threshold;
-    can::memory::set_memory(Default::default());
+    can::memory::set_memory(fresh_memory());
     can::with_state_mut(|s| {
         let mut ns = can::state::State::new(
             can::unstable_blocks::BlocksCacheInStableMem::new(
